@@ -2,6 +2,7 @@ package system
 
 import (
 	"context"
+	"database/sql"
 	"errors"
 	"fmt"
 	"sync"
@@ -30,7 +31,7 @@ func (c *controllerFacade) handleState(ctx context.Context, dryRun bool, fn func
 		return fn(c.Controller)
 	}
 
-	ctrl, tx, err := c.BeginTX(ctx, nil)
+	ctrl, tx, err := c.Controller.BeginTX(ctx, nil)
 	if err != nil {
 		return err
 	}
@@ -39,50 +40,8 @@ func (c *controllerFacade) handleState(ctx context.Context, dryRun bool, fn func
 	}()
 
 	if err := withLock(ctx, ctrl, func(ctrl ledgercontroller.Controller, conn bun.IDB) error {
-
-		// todo: remove that in a later version
-		ret, err := tx.NewUpdate().
-			Model(&l).
-			Set("state = ?", ledger.StateInUse).
-			Where("id = ? and state = ?", l.ID, ledger.StateInitializing).
-			Exec(ctx)
-		if err != nil {
+		if err := markInUse(ctx, tx, l); err != nil {
 			return err
-		}
-
-		rowsAffected, err := ret.RowsAffected()
-		if err != nil {
-			return err
-		}
-
-		if rowsAffected > 0 {
-			_, err := tx.NewRaw(
-				fmt.Sprintf(`
-					select setval(
-						'"%s"."transaction_id_%d"', 
-						(
-							select max(id) from "%s".transactions where ledger = '%s'
-						)::bigint
-					)
-				`, l.Bucket, l.ID, l.Bucket, l.Name),
-			).Exec(ctx)
-			if err != nil {
-				return fmt.Errorf("failed to update transactions sequence value: %w", err)
-			}
-
-			_, err = tx.NewRaw(
-				fmt.Sprintf(`
-					select setval(
-						'"%s"."log_id_%d"', 
-						(
-							select max(id) from "%s".logs where ledger = '%s'
-						)::bigint
-					)
-				`, l.Bucket, l.ID, l.Bucket, l.Name),
-			).Exec(ctx)
-			if err != nil {
-				return fmt.Errorf("failed to update logs sequence value: %w", err)
-			}
 		}
 
 		if err := fn(ctrl); err != nil {
@@ -109,6 +68,87 @@ func (c *controllerFacade) handleState(ctx context.Context, dryRun bool, fn func
 	}
 
 	return nil
+}
+
+// markInUse moves the ledger from 'initializing' to 'in-use' inside tx (the ledger lock is held by the caller) and,
+// when it does, moves the id sequences past the rows an import may have left.
+func markInUse(ctx context.Context, tx *bun.Tx, l ledger.Ledger) error {
+	// todo: remove that in a later version
+	ret, err := tx.NewUpdate().
+		Model(&l).
+		Set("state = ?", ledger.StateInUse).
+		Where("id = ? and state = ?", l.ID, ledger.StateInitializing).
+		Exec(ctx)
+	if err != nil {
+		return err
+	}
+
+	rowsAffected, err := ret.RowsAffected()
+	if err != nil {
+		return err
+	}
+
+	if rowsAffected > 0 {
+		_, err := tx.NewRaw(
+			fmt.Sprintf(`
+				select setval(
+					'"%s"."transaction_id_%d"', 
+					(
+						select max(id) from "%s".transactions where ledger = '%s'
+					)::bigint
+				)
+			`, l.Bucket, l.ID, l.Bucket, l.Name),
+		).Exec(ctx)
+		if err != nil {
+			return fmt.Errorf("failed to update transactions sequence value: %w", err)
+		}
+
+		_, err = tx.NewRaw(
+			fmt.Sprintf(`
+				select setval(
+					'"%s"."log_id_%d"', 
+					(
+						select max(id) from "%s".logs where ledger = '%s'
+					)::bigint
+				)
+			`, l.Bucket, l.ID, l.Bucket, l.Name),
+		).Exec(ctx)
+		if err != nil {
+			return fmt.Errorf("failed to update logs sequence value: %w", err)
+		}
+	}
+
+	return nil
+}
+
+// BeginTX opens a transaction for a caller that runs several writes in it (an atomic bulk). Such a transaction is
+// a first write like any other: on a ledger still 'initializing' it takes the ledger lock and marks the ledger
+// 'in-use', so that a later import is refused and a running import excludes it.
+func (c *controllerFacade) BeginTX(ctx context.Context, options *sql.TxOptions) (ledgercontroller.Controller, *bun.Tx, error) {
+	ctrl, tx, err := c.Controller.BeginTX(ctx, options)
+	if err != nil {
+		return nil, nil, err
+	}
+
+	c.mu.RLock()
+	l := c.ledger
+	c.mu.RUnlock()
+
+	if l.State == ledger.StateInUse {
+		return ctrl, tx, nil
+	}
+
+	// the lock is taken by the transaction itself: it is held until the caller commits or rolls back ctrl
+	if _, _, _, err := ctrl.LockLedger(ctx); err != nil {
+		_ = ctrl.Rollback(ctx)
+		return nil, nil, fmt.Errorf("failed to lock ledger: %w", err)
+	}
+	if err := markInUse(ctx, tx, l); err != nil {
+		_ = ctrl.Rollback(ctx)
+		return nil, nil, err
+	}
+
+	return ctrl, tx, nil
 }
 
 func (c *controllerFacade) CreateTransaction(ctx context.Context, parameters ledgercontroller.Parameters[ledgercontroller.CreateTransaction]) (*ledger.Log, *ledger.CreatedTransaction, bool, error) {
